@@ -1,0 +1,131 @@
+//go:build verif
+
+package main
+
+import (
+	"context"
+	"encoding/hex"
+	"encoding/json"
+	"os"
+	"testing"
+
+	"github.com/ethereum/go-ethereum/rlp"
+
+	"github.com/vechain/thor/v2/block"
+	"github.com/vechain/thor/v2/chain"
+	"github.com/vechain/thor/v2/logdb"
+	"github.com/vechain/thor/v2/muxdb"
+	"github.com/vechain/thor/v2/tx"
+)
+
+// Verification hook (build tag verif, test binary only) for the C13 harness: the start-up re-sync of the log db
+// (syncLogDB in sync_logdb.go) on the state a stop between writeLogs and repo.AddBlock leaves: a repository built from the
+// stored blocks, and a log db that ALSO holds the rows of blocks the repository does not know.
+// No logic beyond decoding the inputs and encoding the observables.
+//
+// VERIF_CRASHLOG_IN: JSON list of cases; VERIF_CRASHLOG_OUT: JSON list of results (same order).
+// Without VERIF_CRASHLOG_IN the test does nothing.
+
+type verifCrashLogCase struct {
+	Genesis string           `json:"genesis"` // hex RLP
+	Stored  []verifSyncBlock `json:"stored"`  // added to the repository, in this order
+	Logged  []verifSyncBlock `json:"logged"`  // written to the log db only
+	Pre     []int            `json:"pre"`     // Writer.Write order: i < len(stored) names stored[i], otherwise logged[i-len(stored)]
+}
+
+type verifCrashLogResult struct {
+	Fatal     string            `json:"fatal,omitempty"` // the inputs could not be built
+	SyncErr   string            `json:"sync_err,omitempty"`
+	Events    []*logdb.Event    `json:"events"`
+	Transfers []*logdb.Transfer `json:"transfers"`
+}
+
+func verifCrashLogRunCase(c *verifCrashLogCase) (res verifCrashLogResult) {
+	fatal := func(err error) verifCrashLogResult { return verifCrashLogResult{Fatal: err.Error()} }
+	decode := func(s string, v any) error {
+		raw, err := hex.DecodeString(s)
+		if err != nil {
+			return err
+		}
+		return rlp.DecodeBytes(raw, v)
+	}
+	var genesis block.Block
+	if err := decode(c.Genesis, &genesis); err != nil {
+		return fatal(err)
+	}
+	db := muxdb.NewMem()
+	defer db.Close()
+	repo, err := chain.NewRepository(db, &genesis)
+	if err != nil {
+		return fatal(err)
+	}
+	var blocks []*block.Block
+	var receipts []tx.Receipts
+	for i, sb := range append(append([]verifSyncBlock{}, c.Stored...), c.Logged...) {
+		var b block.Block
+		if err := decode(sb.Block, &b); err != nil {
+			return fatal(err)
+		}
+		var rs tx.Receipts
+		if err := decode(sb.Receipts, &rs); err != nil {
+			return fatal(err)
+		}
+		if i < len(c.Stored) {
+			if err := repo.AddBlock(&b, rs, sb.Conflicts, sb.Best); err != nil {
+				return fatal(err)
+			}
+		}
+		blocks, receipts = append(blocks, &b), append(receipts, rs)
+	}
+	logDB, err := logdb.NewMem()
+	if err != nil {
+		return fatal(err)
+	}
+	defer logDB.Close()
+	w := logDB.NewWriter()
+	for _, i := range c.Pre {
+		if err := w.Write(blocks[i], receipts[i]); err != nil {
+			return fatal(err)
+		}
+	}
+	if err := w.Commit(); err != nil {
+		return fatal(err)
+	}
+	ctx := context.Background()
+	if err := syncLogDB(ctx, repo, logDB, false); err != nil {
+		res.SyncErr = err.Error()
+	}
+	if res.Events, err = logDB.FilterEvents(ctx, nil); err != nil {
+		return fatal(err)
+	}
+	if res.Transfers, err = logDB.FilterTransfers(ctx, nil); err != nil {
+		return fatal(err)
+	}
+	return res
+}
+
+func TestVerifCrashLogDB(t *testing.T) {
+	in := os.Getenv("VERIF_CRASHLOG_IN")
+	if in == "" {
+		return
+	}
+	raw, err := os.ReadFile(in)
+	if err != nil {
+		t.Fatal(err)
+	}
+	var cases []verifCrashLogCase
+	if err := json.Unmarshal(raw, &cases); err != nil {
+		t.Fatal(err)
+	}
+	results := make([]verifCrashLogResult, len(cases))
+	for i := range cases {
+		results[i] = verifCrashLogRunCase(&cases[i])
+	}
+	out, err := json.Marshal(results)
+	if err != nil {
+		t.Fatal(err)
+	}
+	if err := os.WriteFile(os.Getenv("VERIF_CRASHLOG_OUT"), out, 0o644); err != nil {
+		t.Fatal(err)
+	}
+}
